@@ -106,6 +106,9 @@ class C04(Check):
                 else:
                     cs.append({"name": name, "idx": idx, "other": True,
                                "small": (not self.thorough) and not edge})
+                if edge and not name.startswith("v1-"):
+                    # the same cell met by a manager that has served another command before
+                    cs.append({"name": name, "idx": idx, "history": True})
                 if edge:
                     # the same with the managers' -D/--iodebug option on the dongle (what is logged
                     # on the error paths)
@@ -146,7 +149,51 @@ class C04(Check):
         finally:
             self.debug_dongle = False
 
+    def history(self, case, stats):
+        """state kept by the manager between commands: after each other command (served on the same
+        protocol + dongle objects) the cell (command, exchange, fault) must be answered exactly as by
+        manager objects created afresh over the same device"""
+        import json
+        vs = []
+        name, idx = case["name"], case["idx"]
+        kind = self.nominal[name]["kinds"][idx]
+        named = sorted(fwtables.named_causes(kind))
+        faults = [("sw", c) for c in named] + [("sw", 0x6B90), ("sw", 0x6A8F), ("timeout",), ("none",)]
+        if case.get("fault") is not None:
+            faults = [tuple(case["fault"])]
+        priors = [p for p in self.reqs if not p.startswith("v1-") and p != name and p != "uiHeartbeat-inplace"]
+        if case.get("prior") is not None:
+            priors = [case["prior"]]
+        req = self.reqs[name]
+        for prior in priors:
+            for fault in faults:
+                out = []
+                for fresh_objects in (False, True):
+                    dev = dialogues.configure(PowHsm(seed=b"c04"), prior)
+                    w = World(dev)
+                    proto = harness.make_protocol(w)
+                    harness.handle_line(proto, json.dumps(self.reqs[prior]).encode())
+                    dialogues.configure(dev, name)
+                    if fresh_objects:
+                        proto = harness.make_protocol(w)
+                    base = w.seq
+                    if fault[0] != "none":
+                        w.inject = lambda world, i, apdu, base=base: fault if i - base == idx else None
+                    o = harness.handle_line(proto, json.dumps(req).encode())
+                    out.append((o.reply, o.exc))
+                stats.evaluations += 1
+                stats.observe(("history", prior, name, kind, fault[0], out[0] == out[1]))
+                if out[0] != out[1]:
+                    vs.append(Violation("C04", "C04:code-depends-on-earlier-command:%s:after-%s" % (name, prior),
+                                        {"name": name, "idx": idx, "history": True, "prior": prior,
+                                         "fault": list(fault)}, None,
+                                        {"reply": out[0][0], "exc": out[0][1]},
+                                        {"reply_of_fresh_manager_objects": out[1][0]}, "history"))
+        return vs
+
     def _run_case(self, case, stats):
+        if case.get("history"):
+            return self.history(case, stats)
         vs = []
         name, idx = case["name"], case["idx"]
         if "fault" in case:
